@@ -96,16 +96,16 @@ def ident_pool(c):
 
 
 def uri_pool(c):
-    pool = {"", "zz", "u", "http://nope"}
+    pool = {"", "zz", "u", "http://nope", " ", " zz ", "zz\n"}
     for r in c.records:
         for u in [r.uri_prefix] + list(r.uri_prefix_synonyms):
-            pool.update({u, u + "1", u + "x/y", u[:-1], u[:-1] + "?", u.upper() + "1", u + c.delimiter + "1"})
+            pool.update({u, u + "1", u + "x/y", u[:-1], u[:-1] + "?", u.upper() + "1", u + c.delimiter + "1", " " + u + "1", u + "1 "})
     return sorted(pool)
 
 
 def curie_pool(c):
     d = c.delimiter
-    pool = {"", "nodelim", d, d + "x", "zz" + d + "1"}
+    pool = {"", "nodelim", d, d + "x", "zz" + d + "1", " ", " zz" + d + "1 ", "zz" + d + "1\n"}
     for p in prefix_pool(c):
         for i in ["", "1", "x" + d + "y"]:
             pool.add(p + d + i)
